@@ -122,69 +122,89 @@ def run(ctx):
 def run_history(ctx):
     """graphs of circuits that went through earlier passes (map incl. the identity mapping, decompose, merge), with a
     user-defined named matrix gate among the statements"""
-    from opensquirrel.ir import MatrixGate, QubitLike, named_gate
-    from opensquirrel.mapper import HardcodedMapper, IdentityMapper
-    from opensquirrel.mapper.mapping import Mapping
-
-    from harness import implrun
-
-    @named_gate
-    def uswap(a: QubitLike, b: QubitLike) -> MatrixGate:
-        return MatrixGate([[1, 0, 0, 0], [0, 0, 1, 0], [0, 1, 0, 0], [0, 0, 0, 1]], [a, b])
-
     rng = ctx.rng
     n_cases = 0
     for _ in range(ctx.pick(80, 800)):
         nq = rng.randint(2, 6)
         specs = [s for s in gen.rand_circuit_spec(rng, nq, 1, rng.randint(1, 8), max_ctrl=1, allow_mat=True) if len(gen.spec_qubits(s)) <= 2]
-        c = gen.build_circuit(nq, 1, specs)
-        extra = []
+        n_stmts = len(gen.build_circuit(nq, 1, specs).ir.statements)
+        extra, where = [], []
         for _ in range(rng.randint(0, 2)):
             a, b = gen.rand_qubits(rng, nq, 2)
-            c.ir.statements.insert(rng.randint(0, len(c.ir.statements)), uswap(a, b))
+            where.append(rng.randint(0, n_stmts + len(extra)))
             extra.append((a, b))
         perm = list(range(nq))
         rng.shuffle(perm)
         hist = rng.choice([["identity_map"], ["map"], ["map", "map"], ["decompose", "map"], ["merge", "map"], ["map", "decompose"]])
-        case = {"nq": nq, "nb": 1, "specs": specs, "user_swaps": extra, "history": hist, "perm": perm}
+        check_history(ctx, {"nq": nq, "nb": 1, "specs": specs, "user_swaps": extra, "history": hist, "perm": perm}, where)
         n_cases += 1
-        ctx.seen(case)
-        f = {q: q for q in range(nq)}
-        try:
-            for h in hist:
-                if h == "identity_map":
-                    c.map(IdentityMapper(nq))
-                elif h == "map":
-                    c.map(HardcodedMapper(nq, Mapping(perm)))
-                    f = {q: perm[f[q]] for q in f}
-                elif h == "decompose":
-                    implrun.apply_pass(c, ["decompose", "zyz"])
-                else:
-                    implrun.apply_pass(c, ["merge"])
-        except Exception:  # noqa: BLE001
-            continue
-        im = impl_graph(c)
-        want = set()
-        for sp in specs:
-            if gen.is_gate_spec(sp) and len(gen.spec_qubits(sp)) == 2:
-                a, b = gen.spec_qubits(sp)
-                want.add(tuple(sorted((f[a], f[b]))))
-        for a, b in extra:
-            want.add(tuple(sorted((f[a], f[b]))))
-        orc = ["ok", sorted({q for e in want for q in e}), sorted(list(e) for e in want)]
-        (_, mr), = model.call_many([["graph", ser.ser_stmts(c.ir.statements)]])
-        mo = norm_model(mr)
-        if mo != im:
-            ctx.disagree("history", case, f"impl={im} model={mo}")
-        if im != orc:
-            ctx.oracle_fail("history", case, f"after {hist}: impl={im} expected={orc}", mo == im)
     ctx.suite("history", cases=n_cases)
 
 
-def replay(ctx, payload):
-    case = payload.get("case") or (payload.get("first_disagreement") or {}).get("case")
-    c = gen.build_circuit(case["nq"], case["nb"], case["specs"])
+def user_swap():
+    from opensquirrel.ir import MatrixGate, QubitLike, named_gate
+
+    @named_gate
+    def uswap(a: QubitLike, b: QubitLike) -> MatrixGate:
+        return MatrixGate([[1, 0, 0, 0], [0, 0, 1, 0], [0, 1, 0, 0], [0, 0, 0, 1]], [a, b])
+    return uswap
+
+
+def check_history(ctx, case, where):
+    """where: the positions at which the user gates were inserted, one after the other (recorded for the replay)"""
+    from opensquirrel.mapper import HardcodedMapper, IdentityMapper
+    from opensquirrel.mapper.mapping import Mapping
+
+    from harness import implrun
+
+    nq, specs, extra, hist, perm = case["nq"], case["specs"], case["user_swaps"], case["history"], case["perm"]
+    uswap = user_swap()
+    c = gen.build_circuit(nq, 1, specs)
+    for (a, b), pos in zip(extra, where):
+        c.ir.statements.insert(pos, uswap(a, b))
+    ctx.seen(case)
+    case = {**case, "swap_positions": list(where)}
+    f = {q: q for q in range(nq)}
+    try:
+        for h in hist:
+            if h == "identity_map":
+                c.map(IdentityMapper(nq))
+            elif h == "map":
+                c.map(HardcodedMapper(nq, Mapping(perm)))
+                f = {q: perm[f[q]] for q in f}
+            elif h == "decompose":
+                implrun.apply_pass(c, ["decompose", "zyz"])
+            else:
+                implrun.apply_pass(c, ["merge"])
+    except Exception:  # noqa: BLE001
+        return
     im = impl_graph(c)
+    want = set()
+    for sp in specs:
+        if gen.is_gate_spec(sp) and len(gen.spec_qubits(sp)) == 2:
+            a, b = gen.spec_qubits(sp)
+            want.add(tuple(sorted((f[a], f[b]))))
+    for a, b in extra:
+        want.add(tuple(sorted((f[a], f[b]))))
+    orc = ["ok", sorted({q for e in want for q in e}), sorted(list(e) for e in want)]
     (_, mr), = model.call_many([["graph", ser.ser_stmts(c.ir.statements)]])
-    orc = oracle(case["specs"])
-    return {"impl": im, "model": norm_model(mr), "oracle": orc, "fails": im != orc}
+    mo = norm_model(mr)
+    if mo != im:
+        ctx.disagree("history", case, f"impl={im} model={mo}")
+    if im != orc:
+        ctx.oracle_fail("history", case, f"after {hist}: impl={im} expected={orc}", mo == im)
+
+
+def replay(ctx, payload):
+    from harness import framework
+
+    suite, case = framework.replay_target(payload)
+    if case is None:
+        return framework.replay_nothing(payload)
+    if "history" in case:
+        pub = {k: v for k, v in case.items() if k != "swap_positions"}
+        pub["user_swaps"] = [tuple(x) for x in pub["user_swaps"]]
+        check_history(ctx, pub, case.get("swap_positions", [0] * len(case["user_swaps"])))
+    else:
+        check_cases(ctx, suite or "replay", [(case["nq"], case["nb"], case["specs"])])
+    return framework.replay_result(ctx)
